@@ -8,14 +8,15 @@ nothing is runnable.
 import collections
 import concurrent.futures
 import hashlib
+import os
 import sys
 import threading
 import time as _real_time
 
 _tls = threading.local()
 
-WALL_STEP_LIMIT = 240.0   # a single grant must come back within this many real seconds (generous: the
-#                           machine may be heavily over-subscribed; exceeding it is a harness error, never a verdict)
+WALL_STEP_LIMIT = float(os.environ.get("VERIF_STEP_LIMIT", "150"))   # a single grant must come back within this many
+#   real seconds (generous: the machine may be heavily over-subscribed); see ActorStuck for what happens otherwise
 
 
 class SimAbort(SystemExit):
@@ -25,6 +26,18 @@ class SimAbort(SystemExit):
 
 class HarnessError(Exception):
     """Something is wrong with the simulator/harness itself - never a VIOLATION."""
+
+
+class ActorStuck(HarnessError):
+    """An actor ran for WALL_STEP_LIMIT real seconds without reaching a scheduling point.  `where` names the
+    innermost function of the code under test it was found in on two samples (None: not in that code - then it is
+    a harness problem); the runner reports a busy loop in the code under test as a liveness violation."""
+
+    def __init__(self, msg, actor, where, stack):
+        super().__init__(msg)
+        self.actor = actor
+        self.where = where
+        self.stack = stack
 
 
 class Actor:
@@ -208,7 +221,26 @@ class World:
         a.state = "running"
         a.sem.release()
         if not self._sched_sem.acquire(timeout=WALL_STEP_LIMIT):
-            raise HarnessError(f"actor {a.name} did not yield within {WALL_STEP_LIMIT}s wall ({a.desc})")
+            # The actor neither finished nor reached any scheduling point: it is spinning (or computing for minutes).
+            # Sample where it is: twice the same function of the code under test = a busy loop in that code.
+            import traceback
+            import time as _t
+            frames = []
+            for _ in range(2):
+                fr = sys._current_frames().get(a.thread.ident)
+                frames.append(traceback.extract_stack(fr) if fr is not None else [])
+                _t.sleep(1.0)
+            repo = os.path.realpath(os.environ.get("VERIF_REPO", "/repo"))
+
+            def innermost_repo(st):
+                for f in reversed(st):
+                    if os.path.realpath(f.filename).startswith(repo + os.sep):
+                        return f"{os.path.basename(f.filename)}:{f.name}"
+                return None
+            w0, w1 = innermost_repo(frames[0]), innermost_repo(frames[1])
+            where = w0 if (w0 is not None and w0 == w1) else None
+            tail = " <- ".join(f"{os.path.basename(f.filename)}:{f.name}:{f.lineno}" for f in reversed(frames[1][-6:]))
+            raise ActorStuck(f"actor {a.name} did not yield within {WALL_STEP_LIMIT}s wall ({a.desc}); stack: {tail}", a.name, where, tail)
 
     def run(self, until=None, max_steps=None, max_time=None):
         """Run until `until()` holds, quiescence, or a cap.  Returns the reason."""
